@@ -415,10 +415,17 @@ def run_witness(meta, unit):
         open(ct, "w").write(txt)
         shutil.copy(os.path.join(repo, "Cargo.lock"), os.path.join(wd, "w", "Cargo.lock"))
         env = dict(os.environ, CARGO_TARGET_DIR=os.environ.get("VERIF_WITNESS_TARGET", "/tmp/vf_witness_target"), CARGO_NET_OFFLINE="true")
-        b = subprocess.run(["cargo", "build", "--offline", "--release", "--bin", wbin], cwd=os.path.join(wd, "w"), env=env, capture_output=True, text=True, timeout=1500)
-        if b.returncode != 0:
-            return [], None, "witness build failed:\n" + b.stderr[-1500:]
-        exe = os.path.join(env["CARGO_TARGET_DIR"], "release", wbin)
+        # the target directory is only a build cache shared by concurrent checks (possibly of different trees): build
+        # and take a private copy of the binary under a lock, so that the binary run is the one built from VERIF_REPO
+        import fcntl
+        os.makedirs(env["CARGO_TARGET_DIR"], exist_ok=True)
+        with open(os.path.join(env["CARGO_TARGET_DIR"], ".verif.lock"), "w") as lk:
+            fcntl.flock(lk, fcntl.LOCK_EX)
+            b = subprocess.run(["cargo", "build", "--offline", "--release", "--bin", wbin], cwd=os.path.join(wd, "w"), env=env, capture_output=True, text=True, timeout=1500)
+            if b.returncode != 0:
+                return [], None, "witness build failed:\n" + b.stderr[-1500:]
+            exe = os.path.join(wd, wbin)
+            shutil.copy2(os.path.join(env["CARGO_TARGET_DIR"], "release", wbin), exe)
         r = subprocess.run([exe], capture_output=True, text=True, timeout=900)
         wit, summ = [], None
         for line in r.stdout.split("\n"):
@@ -531,7 +538,7 @@ def main():
         undecided("lost-anchor", str(e))
     gen = os.path.join(BUILD, unit + ".rs")
     open(gen, "w").write(text)
-    json.dump({"items": ctx.items}, open(os.path.join(BUILD, unit + ".extract.json"), "w"), indent=1)
+    json.dump({"items": [{k: v for k, v in it.items() if k != "src_text"} for it in ctx.items]}, open(os.path.join(BUILD, unit + ".extract.json"), "w"), indent=1)
 
     # 1b. functions whose full specification is only checked by the bounded witness search
     bounded = meta.get("bounded", {})
@@ -542,6 +549,24 @@ def main():
             bounded_hashes[pth] = rsx.locate(ctx.src(f_), comps_).sha()
     except Lost as e:
         undecided("lost-anchor", "bounded function: %s" % e)
+
+    # 1c. functions whose contract is imported from another unit and that live in a file the PROPERTY is anchored in
+    # (properties.jsonl anchors.files, plus meta.json "watch_files"): a change of their text is checked by re-running
+    # the unit that proves them, and a failure there is reported under this unit's property.
+    anchor_files = set(meta.get("watch_files", []))
+    try:
+        for line in open(os.path.join(VERIF, "properties.jsonl")):
+            pj = json.loads(line)
+            if pj.get("id") == prop:
+                anchor_files.update(pj.get("anchors", {}).get("files", []))
+    except OSError:
+        pass
+    imported_hashes = {}
+    imported_unit = {}
+    for it in ctx.items:
+        if it["kind"] == "fn" and it.get("imported_from") and it["file"] in anchor_files:
+            imported_hashes[it["path"]] = it["sha256"]
+            imported_unit[it["path"]] = (it["imported_from"], it["out_name"])
 
     # 2. parse
     try:
@@ -628,7 +653,7 @@ def main():
     kfs = {k["obligation"]: k for k in kf_all.get("findings", []) if k.get("property") == prop}
     if args.update_baseline:
         good = sorted(o for o in obs if o not in failed)
-        json.dump({"unit": unit, "obligations": good, "bounded_hashes": bounded_hashes}, open(base_path, "w"), indent=1)
+        json.dump({"unit": unit, "obligations": good, "bounded_hashes": bounded_hashes, "imported_hashes": imported_hashes}, open(base_path, "w"), indent=1)
         print("baseline written: %d obligations (%d failing, not listed)" % (len(good), len(failed)))
     base_json = json.load(open(base_path)) if os.path.exists(base_path) else {"obligations": []}
     baseline = set(base_json["obligations"])
@@ -652,6 +677,32 @@ def main():
     if undec and not failed:
         undecided("resource-limit", "\n".join("%s: %s" % u for u in undec))
 
+    dep_violations = []
+    dep_info = None
+    base_imp = base_json.get("imported_hashes")
+    if base_imp is not None and not args.update_baseline and os.environ.get("VERIF_NO_DEPS") != "1":
+        changed_imp = sorted(p_ for p_, h_ in imported_hashes.items() if base_imp.get(p_) not in (None, h_))
+        if changed_imp:
+            dep_units = sorted(set(imported_unit[p_][0] for p_ in changed_imp))
+            names = set(imported_unit[p_][1] for p_ in changed_imp)
+            dep_info = dict(changed_imported_functions=changed_imp, rerun_units=dep_units, results={})
+            import tempfile, shutil
+            for du_ in dep_units:
+                tmp_out = tempfile.mkdtemp(prefix="vf_dep.")
+                env = dict(os.environ, VERIF_OUT=tmp_out, VERIF_NO_WITNESS="1", VERIF_NO_DEPS="1")
+                pr = subprocess.run([sys.executable, os.path.join(VERIF, "tools", "verdict.py"), du_, "--tier", "quick"], capture_output=True, text=True, env=env, cwd=VERIF)
+                dep_info["results"][du_] = "exit %d" % pr.returncode
+                for line in pr.stdout.split("\n"):
+                    mm = re.match(r"^VIOLATION property=\S+ replay=(\S+) obligation=(\S+)", line)
+                    if mm and any(re.search(r"(::|\.)%s\." % re.escape(n_), mm.group(2)) for n_ in names):
+                        keep = os.path.join(OUT, "replay", "dep_" + os.path.basename(mm.group(1)))
+                        try:
+                            shutil.copy(mm.group(1), keep)
+                        except OSError:
+                            keep = mm.group(1)
+                        dep_violations.append((mm.group(2), keep, du_))
+                shutil.rmtree(tmp_out, ignore_errors=True)
+
     missing = sorted(o for o in baseline if o not in obs)
     if missing:
         undecided("baseline-obligation-missing", "obligations on the committed baseline that the generated file no longer contains: %s" % missing[:20])
@@ -659,6 +710,34 @@ def main():
     violations = []
     known_hit = []
     new_unlisted = []
+    if dep_violations:
+        # an imported function this unit relies on changed and no longer meets the contract proved by its own unit
+        wit, summ, wlog = ([], None, "skipped") if os.environ.get("VERIF_NO_WITNESS") == "1" else run_witness(meta, unit)
+        ev_dep = dict(property_id=prop, tier=tier, seed=seed, level="proof",
+                      coverage=dict(obligations=len(obs), discharged=len([o for o in obs if o not in failed]), checker_cmd=runs[0]["cmd"], trusted_base=[],
+                                    dependency_check=dep_info, evaluations=1, distinct_nontrivial=len(dep_violations)),
+                      assumptions=[], wall_s=round(time.time() - t_start, 2), violations=len(dep_violations))
+        json.dump(ev_dep, open(ev_path, "w"), indent=1)
+        for (ob, rp, du_) in dep_violations:
+            extra = ""
+            if wit:
+                w0 = wit[0]
+                extra = " input=%s" % json.dumps({k: v for k, v in w0.items() if k != "witness"})
+            print("VIOLATION property=%s replay=%s obligation=%s (function imported from unit %s: its contract, which this unit relies on, no longer verifies)%s" % (
+                prop, rp, ob, du_, extra if extra else " no-failing-input-found"))
+        sys.exit(1)
+    if dep_info is not None and not dep_violations and os.environ.get("VERIF_NO_WITNESS") != "1" and meta.get("witness") and not failed:
+        # the imported functions changed but still meet their contracts (or their unit is undecided): the behaviour this
+        # unit sees may still have changed within the contract's slack -> run this unit's bounded enumerator
+        wit, summ, wlog = run_witness(meta, unit)
+        if wit:
+            rp_path = os.path.join(OUT, "replay", "%s.witness.json" % unit)
+            json.dump(dict(property=prop, unit=unit, obligation="%s.bounded-witness" % unit, dependency_check=dep_info, witnesses=wit, summary=summ,
+                           rerun="./check %s" % unit), open(rp_path, "w"), indent=1)
+            w0 = wit[0]
+            print("VIOLATION property=%s replay=%s obligation=%s.bounded-witness.%s input=%s (an imported function changed; failing input found by bounded search on the real code)" % (
+                prop, rp_path, unit, w0.get("op", "?"), json.dumps({k: v for k, v in w0.items() if k != "witness"})))
+            sys.exit(1)
     for ob, msgs in sorted(failed.items()):
         if ob in kfs:
             known_hit.append(ob)
@@ -722,6 +801,8 @@ def main():
             bounded=bounded_info,
             baseline_obligations=len(baseline),
             obligations_by_origin=by_origin,
+            dependency_check=dep_info,
+            imported_functions_watched=len(imported_hashes),
             obligations_note="obligations counts every ensures / loop-invariant / body obligation of the generated file; obligations_by_origin says how many belong to this unit's own files and how many are lemmas of imported units / shared spec files re-checked here",
             failing_obligations=sorted(failed.keys()),
         ),
